@@ -1,8 +1,10 @@
 pub mod c19;
 pub mod c20;
 pub mod c21;
+pub mod ingest_props;
+pub mod ingestworld;
 pub mod syncworld;
 
 pub fn all() -> Vec<&'static dyn simcore::Property> {
-    vec![&c19::C19, &c20::C20, &c21::C21]
+    vec![&ingest_props::C01, &ingest_props::C03, &ingest_props::C05, &c19::C19, &c20::C20, &c21::C21]
 }
